@@ -477,6 +477,36 @@ func c06Gen(r *rand.Rand, tier string) []string {
 		out = append(out, fmt.Sprintf("kind=engine agg=%s pools=3 inst=%d ammo=%d per=%d q=%d slow=%d cancel=%d seed=%d%s",
 			agg, []int{1, 4}[r.Intn(2)], ammo, per, ammo*per, []int{0, 300}[r.Intn(2)], cancel, r.Intn(1<<20), extra))
 	}
+	// ---- round 6
+	nTick, nStdout := 4, 8
+	if tier == "thorough" {
+		nTick, nStdout = 16, 160
+	}
+	// a run that lasts longer than the aggregator's flush period (phout: the 1 s ticker), samples arriving all the time,
+	// over a sink whose writes take a while: periodic flushes happen WHILE samples are handled
+	for i := 0; i < nTick; i++ {
+		if i%4 == 3 {
+			out = append(out, fmt.Sprintf("kind=queue agg=jsonlines g=%d k=%d q=4096 flush=%d buf=4096 wrap=0 jit=%d dur=%d wslow=%d",
+				[]int{1, 4}[r.Intn(2)], []int{200, 600}[r.Intn(2)], []int{50, 150}[r.Intn(2)], r.Intn(1000), 400+r.Intn(300), []int{0, 2000}[r.Intn(2)]))
+			continue
+		}
+		out = append(out, fmt.Sprintf("kind=queue agg=phout g=%d k=%d q=%d flush=1000 buf=%d wrap=%d jit=%d dur=%d wslow=%d",
+			[]int{1, 4}[r.Intn(2)], []int{300, 1200}[r.Intn(2)], []int{0, 1, 64}[r.Intn(3)], []int{0, 4096}[r.Intn(2)], r.Intn(2), r.Intn(1000),
+			1200+r.Intn(300), []int{3000, 20000, 60000}[r.Intn(3)]))
+	}
+	// phout aggregators without a destination: their result stream is the standard output, shared by the pools
+	for i := 0; i < nStdout; i++ {
+		pools := 1 + i%3
+		buf := []int{0, 4096, 65536}[r.Intn(3)]
+		if pools > 1 && !stdoutWholeLines {
+			// a buffer that fills spills in the middle of a line, another pool's flush then lands inside that line (defect
+			// reported in round 6, fixes/C06-phout-whole-lines.diff): until the repair is in /repo only the default
+			// buffer (8 MB, never full in these runs) is used with several pools
+			buf = 0
+		}
+		out = append(out, fmt.Sprintf("kind=stdout pools=%d g=%d k=%d q=64 buf=%d jit=%d tail=%d",
+			pools, []int{1, 4}[r.Intn(2)], []int{0, 1, 40, 400}[r.Intn(4)], buf, r.Intn(1000), []int{0, 5, 50}[r.Intn(3)]))
+	}
 	for i := 0; i < nJSON; i++ {
 		n := 1 + r.Intn(6)
 		q := n + r.Intn(4)
@@ -604,6 +634,9 @@ func c06Gen(r *rand.Rand, tier string) []string {
 	return out
 }
 
+// stdoutWholeLines: is fixes/C06-phout-whole-lines.diff applied to the tree under test (set it to true when it is)
+const stdoutWholeLines = false
+
 // kind=proc measures a real process against wall-clock margins: it runs alone; all other kinds run in parallel
 var procExcl sync.RWMutex
 
@@ -646,7 +679,15 @@ func c06RunKind(kv map[string]string) string {
 	case "str":
 		return runLine(kv, true)
 	case "queue":
+		if kv["dur"] != "" {
+			// (round 6) a run that lasts longer than the aggregator's flush period, over a slow sink: in a child process,
+			// so that a data race the race build reports (exit status 66) is the observation of THIS case
+			return runEngineIsolated(kv["__input"])
+		}
 		return runQueue(kv)
+	case "stdout":
+		// (round 6) phout aggregators without a destination write to the process's standard output: the child owns one
+		return runEngineIsolated(kv["__input"])
 	case "json":
 		return runJSON(kv)
 	case "sinkfail":
@@ -694,6 +735,9 @@ func c06Class(input, obs string) string {
 		if kv["k"] == "0" {
 			c += ":empty"
 		}
+		if kv["dur"] != "" {
+			c += ":across-flush-ticks"
+		}
 		if !strings.Contains(obs, "dropped=0 ") {
 			c += ":drops"
 		}
@@ -733,6 +777,8 @@ func c06Class(input, obs string) string {
 		return c
 	case "json":
 		return "json"
+	case "stdout":
+		return "stdout:pools" + kv["pools"]
 	case "sinkfail":
 		c := "sinkfail:" + kv["agg"]
 		if kv["q"] != "" || kv["closeerr"] == "1" || kv["limit"] == "none" {
@@ -784,7 +830,15 @@ func runEngineIsolated(input string) string {
 
 func main() {
 	if len(os.Args) == 3 && os.Args[1] == "-c06-child" {
-		fmt.Println(runEngine(drv.KV(os.Args[2])))
+		ckv := drv.KV(os.Args[2])
+		switch ckv["kind"] {
+		case "queue":
+			fmt.Println(runQueue(ckv))
+		case "stdout":
+			fmt.Println(runStdout(ckv))
+		default:
+			fmt.Println(runEngine(ckv))
+		}
 		return
 	}
 	// everything except kind=proc (which takes the exclusive lock) is independent of timing: run in parallel
